@@ -70,6 +70,10 @@ def observe(probe, files, how):
     obs = probe.run({"op": "analyze", "files": [[n, t] for n, t in files]})
     if obs.get("watchdog") or "died" in obs or "panic" in obs:
         return None, obs
+    bad = [p for p in obs.get("parse", []) if not p["ok"]]
+    if bad:
+        # analyze() only sees the files that parsed: a file that does not parse makes the set fail
+        obs = dict(obs, ok=False, diags=[p["diag"] for p in bad] + obs.get("diags", []))
     return obs, obs
 
 
@@ -135,8 +139,9 @@ def variants(n, rng, budget):
     return out, exhaustive
 
 
-def run_unit(probe, res, decls, planted, tag, rng, budget, bad_kinds):
-    decl_texts = [vgen.render_decl(d) for d in decls]
+def run_unit(probe, res, decls, planted, tag, rng, budget, bad_kinds, presence_only=False):
+    canonical_texts = [vgen.render_decl(d) for d in decls]
+    decl_texts = canonical_texts
     n = len(decls)
     vs, exhaustive = variants(n, rng, budget)
     ref = None
@@ -144,6 +149,9 @@ def run_unit(probe, res, decls, planted, tag, rng, budget, bad_kinds):
     orders_seen = set()
     agreed = True
     for vi, (perm, blocks) in enumerate(vs):
+        # every 5th variant also re-spells identifier occurrences in another letter case (same length, so the
+        # offsets used for the location comparison do not move)
+        decl_texts = [vgen.recase_identifiers(t, rng) for t in canonical_texts] if vi % 5 == 4 else canonical_texts
         files, _ = compose(decl_texts, blocks)
         how = "project" if vi % 4 else "analyze"
         reps = 3 if vi == 0 else 1
@@ -161,10 +169,15 @@ def run_unit(probe, res, decls, planted, tag, rng, budget, bad_kinds):
             for e in obs.get("events", []):
                 if e[0] == "order":
                     orders_seen.add(e[1])
-            if any(d["code"] == "P9999" for d in r.get("diags", [])):
+            if ref is None and any(d["code"] == "P9999" for d in r.get("diags", [])):
+                # the reference variant itself is answered 'not implemented': outside the property
                 res.unsupported += 1
                 return
             s = summarise(r, files, blocks, decl_texts, planted)
+            if presence_only and planted is not None:
+                s = (s[0], bool(s[1]))
+            elif planted is not None:
+                s = (s[0], tuple((c, di, off, sp.lower()) for c, di, off, sp in s[1]))
             if ref is None:
                 ref, ref_case = s, case
                 continue
@@ -213,6 +226,17 @@ def shard(shard_i, nshards, payload):
             faults += list(missing_external_faults(decls)) if "config-global-leak" not in payload["avoid_faults"] else []
             rng.shuffle(faults)
             # one fault of each distinct code
+            # faults that involve two declarations: a containment cycle and a duplicated name (wherever the two
+            # halves end up - same file, different files, either order - the diagnosis must be the same)
+            cyc = [{"k": "raw", "text": "FUNCTION_BLOCK CycA\nVAR b : CycB; END_VAR\nEND_FUNCTION_BLOCK"},
+                   {"k": "raw", "text": "FUNCTION_BLOCK CycB\nVAR a : CycA; END_VAR\nEND_FUNCTION_BLOCK"}]
+            dup = [{"k": "raw", "text": "PROGRAM DupName\nVAR x : INT; END_VAR\nx := 1;\nEND_PROGRAM"},
+                   {"k": "raw", "text": "PROGRAM DupName\nVAR y : INT; END_VAR\ny := 2;\nEND_PROGRAM"}]
+            for extra, code, tag in ((cyc, "P0010", "fault:cycle"), (dup, "P0020", "fault:duplicate")):
+                m = list(decls[:3])
+                m.insert(rng.randrange(len(m) + 1), extra[0])
+                m.insert(rng.randrange(len(m) + 1), extra[1])
+                run_unit(probe, res, m, code, tag, rng, max(60, payload["budget"] // 4), (), presence_only=True)
             seen = set()
             for code, site, mutant in faults:
                 key = (code, site == "missing-external")
